@@ -71,7 +71,7 @@ def helper_entry_state(eng, fb, f):
     lps = [(i, p) for i, p in enumerate(f.params) if is_lock_carrier(p.get("type", "")) and p.get("ref")]
     if not lps:
         return None
-    key = ("hes", f.unit.name, f.id)
+    key = ("hes", f.unit.name, f.uid)
     if key in eng._summ:
         return eng._summ[key]
     eng._summ[key] = None
@@ -106,7 +106,7 @@ def helper_entry_state(eng, fb, f):
 def locks_assuming(eng, fb, f, assume):
     """lock analysis of f restricted to the paths on which the immutable members in `assume` have the given
     values (lambdas inherit as in locks_of)"""
-    key = ("assume", f.unit.name, f.id, tuple(sorted(assume.items())))
+    key = ("assume", f.unit.name, f.uid, tuple(sorted(assume.items())))
     if key in eng._la:
         return eng._la[key]
     base = locks_of(eng, fb, f)
@@ -122,12 +122,12 @@ def locks_of(ctx_or_eng, fb, f):
     if not f.is_lambda:
         es = helper_entry_state(eng, fb, f)
         if es:
-            key = ("helper", f.unit.name, f.id)
+            key = ("helper", f.unit.name, f.uid)
             if key not in eng._la:
                 eng._la[key] = LockAnalysis(eng, f, entry_state=es)
             return eng._la[key]
         return eng.locks(f)
-    key = ("lam", f.unit.name, f.id)
+    key = ("lam", f.unit.name, f.uid)
     if key in eng._la:
         return eng._la[key]
     par, lam = lambda_site(fb, f)
